@@ -4,7 +4,9 @@
 From Coq Require Import ZArith NArith String List Bool.
 Import ListNotations.
 From TP Require Import Base.PyVal Base.PyEq Fields.FieldAst Fields.SetChain Fields.Doc Struct.Instance
-  Ser.Json Ser.Serialize Ser.Deserialize Ser.DocReading Ser.RoundTripProofs Ser.DeserProofs.
+  Ser.Json Ser.Serialize Ser.Deserialize Ser.DocReading Ser.RoundTripProofs Ser.DeserProofs
+  Ser.DeserExn Ser.DeserExnProofs Gen.DeserFlow Ser.DeserFlowTie Ser.AgreeProofs.
+From Coq Require Import Permutation.
 Local Open Scope string_scope.
 
 Section C06.
@@ -50,9 +52,134 @@ Section C06.
       (c_additional c = false /\ df_ignore_invalid fl = false /\ ku = true) \/
       (c_additional c = true /\ ku = true).
   Proof. intros c ku. destruct ku, (c_additional c), (df_ignore_invalid fl); auto. Qed.
+
+  (* "Rejections are TypeError/ValueError."
+     (4) A multi-field wrapper (AnyOf / OneOf / AllOf / NotField) raises ValueError only, whatever its
+         alternatives raise while they are tried (Unmodelled / OutOfFuel are the model declining). *)
+  Theorem C06_wrapper_error_class : forall rec ku ign j x fs f,
+      f = FAnyOf fs \/ f = FOneOf fs \/ f = FAllOf fs \/ f = FNot fs ->
+      deser_val re_match e ens rec ku ign f j = Raise x -> x = ValueError \/ model_exn x = true.
+  Proof. exact (wrapper_error_class re_match e ens). Qed.
+
+  (* (5) For every class environment whose declarations are well formed and have no positional container
+         (Tuple, Array/Deque with a list of item fields) outside a multi-field wrapper, every rejection by
+         Deserializer(cls).deserialize -- pre-validation, error collection, nested structures, the final
+         constructor call -- is a TypeError/ValueError, for all documents, flags and keep_undefined. *)
+  Theorem C06_error_class : forall n ku cn j x,
+      env_wf e = true -> env_posfree e = true ->
+      deserialize re_match e ens fl n ku cn j = Raise x -> is_te_ve x = true \/ model_exn x = true.
+  Proof. exact (deserialize_error_class re_match e ens fl). Qed.
+
+  (* (6) Without the restriction the only other exception is IndexError (finding F9: value[i] on a document
+         shorter than the positional items) ... *)
+  Theorem C06_error_class_all : forall n ku cn j x,
+      env_wf e = true ->
+      deserialize re_match e ens fl n ku cn j = Raise x ->
+      is_te_ve x = true \/ model_exn x = true \/ x = IndexError.
+  Proof. exact (deserialize_error_class_all re_match e ens fl). Qed.
+
+  (* (7) the final authority: every rejection by the constructor is a TypeError/ValueError *)
+  Theorem C06_constructor_error_class : forall c kw x,
+      class_all wf_field c = true -> construct re_match e c kw = Raise x -> okx x = true.
+  Proof. exact (construct_okx re_match e). Qed.
+
+  (* "deserialize(d) succeeds exactly when d is the documented JSON form of arguments the constructor accepts,
+     and the result then equals the instance the constructor builds."
+     (8) Proved for the scalar fragment: a class whose fields are numbers, strings, booleans, literal enums or
+         Anything (any constraints, any _required / _additional_properties / _ignore_none / defaults / hook),
+         every object document with distinct string keys and no null member, keys in ANY order, any extra keys,
+         both flags, keep_undefined True/False: the code-shaped model (pre-validation per field in class order,
+         error collection for falsy inputs, extras first, the constructor) and the documented reading (the
+         members in document order handed to the constructor) accept the same documents with == instances and
+         otherwise both raise a TypeError/ValueError -- or one of the two models declines. *)
+  Theorem C06_agree_scalar : forall n ku cn c kv skv,
+      find_class e cn = Some c -> scalar_class c = true -> class_all wf_field c = true ->
+      NoDup (field_names c) ->
+      str_keys kv = Some skv -> NoDup (map fst skv) -> (forall k v, In (k, v) skv -> v <> PNone) ->
+      agree (deser_struct re_match e ens fl (S n) ku cn (PDict kv))
+            (spec_deser re_match e ens fl (S n) ku cn (PDict kv)) = true.
+  Proof. exact (agree_scalar re_match e ens fl). Qed.
+
+  (* (9) what (8) rests on: the constructor does not depend on the order of its keyword arguments -- for EVERY
+         class of the model (collections, wrappers, nested structures included): permuted arguments are both
+         accepted with == instances, or both rejected. *)
+  Theorem C06_constructor_order_free : forall c K1 K2,
+      Permutation K1 K2 -> NoDup (field_names c) ->
+      match construct re_match e c K1, construct re_match e c K2 with
+      | Ok x, Ok y => pyval_eqb (strip_none x) (strip_none y) = true
+      | Raise _, Raise _ => True
+      | _, _ => False
+      end.
+  Proof. exact (construct_perm re_match e). Qed.
 End C06.
+
+(* ... and it does occur: the full statement "every rejection is a TypeError/ValueError"
+   (Ser/DeserExn.error_class_statement) is false of the faithful model (F9, open). *)
+(* The exception flow the model assumes is the one the source has NOW (Gen/DeserFlow.v is regenerated from
+   serialization.py on every run): list-like handlers = rewrap, the wrapper's handler catches everything and
+   its own errors are raised inside it, construct_fields_map collects TypeError/ValueError only. *)
+Theorem C06_src_list_like_handlers :
+  exists r1 r2, rows_of (s2p "deserialize_list_like") = [r1; r2] /\
+    forall x, row_catches r1 x = is_te_ve x /\ row_catches r2 x = is_te_ve x.
+Proof. exact list_like_handlers_are_rewrap. Qed.
+
+Theorem C06_src_wrapper_handler :
+  exists r, rows_of (s2p "deserialize_multifield_wrapper") = [r] /\
+    (forall x, model_exn x = false -> row_catches r x = true) /\
+    row_catches r (OtherExn (s2p "InvalidOperation")) = true /\
+    row_raises_inside r = [s2p "ValueError"; s2p "ValueError"].
+Proof. exact wrapper_handler_catches_all. Qed.
+
+Theorem C06_src_fields_map_handler :
+  exists r, rows_of (s2p "construct_fields_map") = [r] /\ forall x, row_catches r x = is_te_ve x.
+Proof. exact fields_map_handler_collects_te_ve. Qed.
+
+Theorem C06_error_class_refuted : ~ error_class_statement.
+Proof. exact error_class_refuted. Qed.
+
+(* non-vacuity: the hypotheses of (5) hold of a class with a wrapper over a positional alternative, and the
+   wrapper does turn the IndexError of that alternative into a ValueError / a match of the next one *)
+Example C06_error_class_nonvacuous :
+  let f := FAnyOf [FTuple [c06_int; c06_str] false; FSeqEach SeqList c06_int {| minItems := None; maxItems := None |} false] in
+  env_wf [c06_cls f] = true /\ env_posfree [c06_cls f] = true /\
+  deserialize (fun _ _ => true) [c06_cls f] [] c06_flags 3 (Some true) (s2p "A") (c06_doc (PList [PNum (NInt 1)]))
+  = Ok (PStruct (s2p "A") [(s2p "t", PList [PNum (NInt 1)])]) /\
+  deserialize (fun _ _ => true) [c06_cls f] [] c06_flags 3 (Some true) (s2p "A") (c06_doc (PList [PStr (s2p "a")]))
+  = Raise ValueError.
+Proof. vm_compute. repeat split; reflexivity. Qed.
+
+(* non-vacuity of (8): a class with an Integer and a String field, additional properties allowed; a document that
+   lists its members in another order than the class and has an extra key; both models accept, with == results *)
+Definition c06_cls2 : classdef :=
+  {| c_name := s2p "B"; c_ancestors := [];
+     c_fields := [{| fd_name := s2p "a"; fd_field := c06_int; fd_immutable := false; fd_default := None |};
+                  {| fd_name := s2p "b"; fd_field := c06_str; fd_immutable := false; fd_default := None |}];
+     c_required := [s2p "a"]; c_additional := true; c_ignore_none := false; c_immutable := false; c_hook := HookNone |}.
+Definition c06_doc2 : list (pystr * pyval) :=
+  [(s2p "b", PStr (s2p "x")); (s2p "zz", PNum (NInt 1)); (s2p "a", PNum (NInt 5))].
+
+Example C06_agree_scalar_nonvacuous :
+  scalar_class c06_cls2 = true /\ class_all wf_field c06_cls2 = true /\
+  str_keys (map (fun p => (PStr (fst p), snd p)) c06_doc2) = Some c06_doc2 /\
+  is_ok (deser_struct (fun _ _ => true) [c06_cls2] [] c06_flags 2 true (s2p "B")
+           (PDict (map (fun p => (PStr (fst p), snd p)) c06_doc2))) = true /\
+  res_equiv_tv (deser_struct (fun _ _ => true) [c06_cls2] [] c06_flags 2 true (s2p "B")
+                  (PDict (map (fun p => (PStr (fst p), snd p)) c06_doc2)))
+               (spec_deser (fun _ _ => true) [c06_cls2] [] c06_flags 2 true (s2p "B")
+                  (PDict (map (fun p => (PStr (fst p), snd p)) c06_doc2))) = true.
+Proof. vm_compute. repeat split; reflexivity. Qed.
 
 Print Assumptions C06_extra_keys_dropped.
 Print Assumptions C06_extra_keys_rejected.
 Print Assumptions C06_keep_undefined_adjustment.
 Print Assumptions C06_extra_keys_cases.
+Print Assumptions C06_wrapper_error_class.
+Print Assumptions C06_error_class.
+Print Assumptions C06_error_class_all.
+Print Assumptions C06_constructor_error_class.
+Print Assumptions C06_agree_scalar.
+Print Assumptions C06_constructor_order_free.
+Print Assumptions C06_src_list_like_handlers.
+Print Assumptions C06_src_wrapper_handler.
+Print Assumptions C06_src_fields_map_handler.
+Print Assumptions C06_error_class_refuted.
